@@ -30,6 +30,8 @@ def runs(p):
         q['desc'] = [['roll', 3, 2, [r]]]
     elif ctx == 'in_split':
         q['desc'] = [['split', 'div3', [r]]]
+    elif ctx == 'in_split2':    # a second lifetime on the slot ring of a roll with many overlapping windows
+        q['desc'] = [['split', 'tup2', [r]]]
     elif ctx == 'after':        # a completion-triggered consumer after roll on the same key: partial windows must be flushed before the key's completion is forwarded
         q['desc'] = [r, ['to_list_sum']]
     elif ctx == 'roll_in':      # roll whose windows are rolled again
@@ -188,9 +190,12 @@ def obligations(tier, seed):
     for (w, s) in ((2, 2), (3, 3), (1, 1)):
         for n in (3, 4, 5):
             obs.append(Ob(PROP, 'runs', dict(ctx='after', w=w, s=s, n=n), budget=120 if q else 600, bound=dict(w=w, s=s, items=n, ctx='after')))
-    for (w, s, n) in ((8, 8, 17), (9, 8, 26), (16, 5, 33), (17, 16, 35), (32, 3, 40), (7, 2, 30), (12, 12, 25), (5, 9, 30)) if q else \
-            ((8, 8, 17), (9, 8, 26), (16, 5, 33), (17, 16, 35), (32, 3, 40), (7, 2, 30), (12, 12, 25), (5, 9, 30), (33, 32, 70), (64, 7, 80), (10, 1, 40), (3, 1, 64), (2, 2, 65)):
-        obs.append(Ob(PROP, 'runs', dict(ctx='root', w=w, s=s, n=n), budget=240 if q else 900, group='long runs (value-independent control flow: one path)', bound=dict(w=w, s=s, items=n, values='any int')))
+    for (w, s, n) in ((8, 8, 17), (9, 8, 26), (16, 5, 33), (17, 16, 35), (32, 3, 40), (7, 2, 30), (12, 12, 25), (5, 9, 30), (9, 1, 10), (10, 1, 25), (17, 1, 20), (20, 2, 45), (257, 257, 259), (257, 129, 260)) if q else \
+            ((8, 8, 17), (9, 8, 26), (16, 5, 33), (17, 16, 35), (32, 3, 40), (7, 2, 30), (12, 12, 25), (5, 9, 30), (9, 1, 10), (10, 1, 25), (17, 1, 20), (20, 2, 45), (257, 257, 259), (257, 129, 260), (33, 32, 70), (64, 7, 80), (10, 1, 40), (3, 1, 64), (2, 2, 65), (300, 1, 302), (1000, 1000, 1001)):
+        obs.append(Ob(PROP, 'runs', dict(ctx='root', w=w, s=s, n=n, nsym=4), budget=240 if q else 900, group='long runs (value-independent control flow: one path)', bound=dict(w=w, s=s, items=n, values='4 symbolic items, the rest concrete')))
+    for (w, s) in ((17, 1), (9, 2), (33, 2)):
+        for n in (3, 4):
+            obs.append(Ob(PROP, 'runs', dict(ctx='in_split2', w=w, s=s, n=n), budget=240 if q else 900, group='long runs (value-independent control flow: one path)', bound=dict(w=w, s=s, items=n, ctx='split > roll with a large ring')))
     gi = 6 if q else 12
     for w in range(1, gi + 1):
         for s in range(1, gi + 1):
